@@ -109,10 +109,13 @@ class Plugin:
 
 
 class Engine:
+    first_iter = True       # loop-header phis take their initial value on entry from outside the loop (first iteration is path-sensitive)
     K_PHI = 6
     BIG_FN = 150
+    MED_FN = 100
 
-    def __init__(s, prog, fn, plugin, budget=150000, noinline=()):
+    def __init__(s, prog, fn, plugin, budget=150000, noinline=(), precision="high"):
+        s.precision = precision
         s.prog = prog
         s.top = fn
         s.plugin = plugin
@@ -121,13 +124,15 @@ class Engine:
         s.noinline = set(noinline)
         s.nonneg = set()
         s.widened = set()
-        s.top_blocks = len(fn.order)
+        s.top_blocks = len(fn.order) if precision == "high" else 10 ** 6     # 'low' behaves like a very large entry point
         s.debug_hook = None
         s.atom_op = {}
         s.phivals = {}
         s.positive_roots = set()
         s.positive = set()      # atoms known >= 1 (addresses of allocas / globals)
         s.nofacts = set()
+        s.indirect_results = set()
+        s.hdrphi = set()
         s.loopdef = set()       # atoms (prefixed SSA ids) defined inside a loop: facts about them are not kept
         s._live = {}
         s._useful = {}
@@ -501,8 +506,8 @@ class Engine:
             pred, x, y = t[1], t[2], t[3]
             pp = _plain(pred if val else NEG[pred])
             d = x - y
-            if any(_core(a) in s.loopdef or _core(a) in s.nofacts for a in d.t):
-                return facts          # loop-variant value: no fact is kept (it would be stale in the next iteration anyway)
+            if any((_core(a) in s.loopdef and (s.precision != "high" or _core(a) not in s.hdrphi)) or _core(a) in s.nofacts for a in d.t):
+                return facts          # facts about loop-header phis are kept for the current iteration (killed on re-entry); other loop-variant data is not tracked
             new = []
             ne = facts.ne
             if pp == "gt":
@@ -623,13 +628,88 @@ class Engine:
         def dead(a):
             return _core(a) in defined
         facts = st.facts.kill(dead) if (st.facts.ge or st.facts.ne or st.facts.cb) else st.facts
+        # phis, simultaneously
+        newv = {}
+        carried = []
+        for i in blk["insts"]:
+            if i["op"] != "phi":
+                break
+            vid = pre + i["id"]
+            if i["id"] in lphis and not (s.first_iter and pred is not None and pred not in fn.loops[bb]["_set"] and s.top_blocks <= s.MED_FN):
+                s.hdrphi.add(vid)
+                ty = i["ty"]
+                if ty.endswith("*"):
+                    r = s.static_root(fn, i["id"])
+                    if r is not None and r != "self":
+                        base = env.get(pre + r)
+                        if base is None and r in fn.params:
+                            base = s.opaque(fr, r, "i8*")
+                        if base is not None and base[0] == "p":
+                            newv[vid] = P(base[1], base[2] + Lin.atom("off:" + vid) if True else None)
+                        else:
+                            newv[vid] = P(vid, Lin.const(0))
+                    else:
+                        newv[vid] = P(vid, Lin.const(0))
+                elif ty == "i1":
+                    newv[vid] = B(("o", vid))
+                else:
+                    newv[vid] = I(Lin.atom(vid))
+                    # carry a lower bound of the counter across the edge: if the incoming value is known >= 1 (>= 0) on this path,
+                    # so is the new instance of the phi (decided with the facts about the old instance, before they are killed)
+                    inc_ = [x for x in i["incoming"] if x["bb"] == pred] if s.precision == "high" else []
+                    if inc_:
+                        xv = s.val(fr, inc_[0]["v"], st.env)
+                        if xv[0] == "i":
+                            bf = s.base_facts(st.facts)
+                            for a_ in xv[1].t:
+                                if a_ in s.positive:
+                                    bf.append(Lin.atom(a_) - Lin.const(1))
+                                elif a_ in s.nonneg:
+                                    bf.append(Lin.atom(a_))
+                            for c_ in (1, 0):
+                                if entails(bf, xv[1] - Lin.const(c_)):
+                                    carried.append(Lin.atom(vid) - Lin.const(c_))
+                                    break
+                continue
+            inc = [x for x in i["incoming"] if x["bb"] == pred]
+            if not inc or vid in s.widened:
+                newv[vid] = s.opaque(fr, i["id"], i["ty"])
+            else:
+                x = s.stabilise(fr, i, s.val(fr, inc[0]["v"], env))
+                if blk["insts"][-1]["op"] != "ret" and not (x[0] == "i" and x[1].is_const() and i["id"] in s.relevant_ids(fn)):
+                    vs = s.phivals.setdefault(vid, set())
+                    vs.add(x)
+                    if len(vs) > s.K_PHI:
+                        # too many distinct path-sensitive values for one merge phi: from now on it is an opaque value (sound widening)
+                        s.widened.add(vid)
+                        s.loopdef.add(vid)
+                        x = s.opaque(fr, i["id"], i["ty"])
+                newv[vid] = x
+        env.update(newv)
+        if carried:
+            facts = Facts(facts.ge | frozenset(carried), facts.ne, facts.cb)
+        # values that were only needed to bind the phis on this edge are dead now
+        lv = s.live_in(fn)[bb]
+        npre = len(pre)
+        for k in [k for k in env if k.startswith(pre) and "/" not in k[npre:] and k not in newv
+                  and k[npre:] not in lv and k[npre:] not in fn.params]:
+            del env[k]
         if facts.ge or facts.ne or facts.cb:
             useful = s.live_in(fn)[bb] | fn_phi_defs(fn, bb)
+            referenced = set()          # atoms that live values are expressed in
+            for k_, v_ in env.items():
+                if v_[0] == "i":
+                    referenced.update(v_[1].t)
+                elif v_[0] == "p":
+                    referenced.update(v_[2].t)
+                    referenced.add("&" + v_[1])
+                elif v_[0] in ("b", "zb") and v_[1][0] == "cmp":
+                    referenced.update(v_[1][2].t); referenced.update(v_[1][3].t)
             pinned = getattr(s.plugin, "pinned", ())
             npre = len(pre)
             def atom_useful(a):
                 c = _core(a)
-                if c.startswith("errno#") or a in pinned:
+                if c.startswith("errno#") or a in pinned or a in referenced:
                     return True
                 if c.startswith(pre):
                     rest = c[npre:]
@@ -660,52 +740,6 @@ class Engine:
                 ne = frozenset(l for k, (l, at) in enumerate(items[ng:]) if keep[ng + k])
                 cb = frozenset(kv for kv in facts.cb if atom_useful(kv[0]))
                 facts = Facts(ge, ne, cb)
-        # phis, simultaneously
-        newv = {}
-        for i in blk["insts"]:
-            if i["op"] != "phi":
-                break
-            vid = pre + i["id"]
-            if i["id"] in lphis:
-                ty = i["ty"]
-                if ty.endswith("*"):
-                    r = s.static_root(fn, i["id"])
-                    if r is not None and r != "self":
-                        base = env.get(pre + r)
-                        if base is None and r in fn.params:
-                            base = s.opaque(fr, r, "i8*")
-                        if base is not None and base[0] == "p":
-                            newv[vid] = P(base[1], base[2] + Lin.atom("off:" + vid) if True else None)
-                        else:
-                            newv[vid] = P(vid, Lin.const(0))
-                    else:
-                        newv[vid] = P(vid, Lin.const(0))
-                elif ty == "i1":
-                    newv[vid] = B(("o", vid))
-                else:
-                    newv[vid] = I(Lin.atom(vid))
-                continue
-            inc = [x for x in i["incoming"] if x["bb"] == pred]
-            if not inc or vid in s.widened:
-                newv[vid] = s.opaque(fr, i["id"], i["ty"])
-            else:
-                x = s.stabilise(fr, i, s.val(fr, inc[0]["v"], env))
-                if blk["insts"][-1]["op"] != "ret":
-                    vs = s.phivals.setdefault(vid, set())
-                    vs.add(x)
-                    if len(vs) > s.K_PHI:
-                        # too many distinct path-sensitive values for one merge phi: from now on it is an opaque value (sound widening)
-                        s.widened.add(vid)
-                        s.loopdef.add(vid)
-                        x = s.opaque(fr, i["id"], i["ty"])
-                newv[vid] = x
-        env.update(newv)
-        # values that were only needed to bind the phis on this edge are dead now
-        lv = s.live_in(fn)[bb]
-        npre = len(pre)
-        for k in [k for k in env if k.startswith(pre) and "/" not in k[npre:] and k not in newv
-                  and k[npre:] not in lv and k[npre:] not in fn.params]:
-            del env[k]
         if seen_post is not None:
             kpost = (bb, frozenset(env.items()), facts, st.epoch, st.pl)
             if kpost in seen_post:
@@ -993,6 +1027,8 @@ class Engine:
             return (e2, facts, epoch, pl)
 
         if name is None:
+            if vid is not None:
+                s.indirect_results.add(vid)
             pl2 = s.plugin.on_event(pl, ("indirect", args, i, fr), s, (env, facts, epoch))
             ep = s.clobber(fr, i)
             return [with_result(env, facts.kill(lambda a: a == "errno#%s" % ep), ep, pl2)]
@@ -1149,7 +1185,7 @@ class Engine:
             if (x[1].is_const() or all(s.stable_atom(a) for a in x[1].t)) and \
                     (s.top_blocks <= s.BIG_FN or phi["id"] in s.relevant_ids(fr.fn)):
                 return x          # (in very large entry points only merges that can reach a result/handler/length stay precise)
-            if len(x[1].t) == 1 and x[1].c == 0 and list(x[1].t.values())[0] == 1 and s.top_blocks <= s.BIG_FN:
+            if len(x[1].t) == 1 and x[1].c == 0 and list(x[1].t.values())[0] == 1 and (s.top_blocks <= s.BIG_FN or phi["id"] in s.relevant_ids(fr.fn)):
                 return x          # the phi merely forwards one opaque value: keep its identity (bounded by K_PHI)
             s.loopdef.add(vid)
             return I(Lin.atom(vid))
@@ -1281,6 +1317,27 @@ def fn_phi_defs(fn, bb):
         r = frozenset(i["id"] for i in fn.blocks[bb]["insts"] if i["op"] == "phi")
         _PHI_DEFS[k] = r
     return r
+
+
+# entry points whose path space is too large for the precise setting (measured: > 70k states); they are always explored coarsely,
+# so that the verdict for them does not depend on a budget being hit
+LOW_PRECISION = {"safec_vsnprintf_s", "_wcsnorm_compose_s_chk", "_wcsfc_s_chk"}
+
+
+def run_adaptive(prog, fn, make_plugin, budgets=(60000, 400000), noinline=()):
+    """explore with full precision under a modest budget; fall back to the coarse setting (sound, less precise) when the path space is too large"""
+    last = None
+    plan = list(zip(("high", "low"), budgets))
+    if fn.name in LOW_PRECISION:
+        plan = plan[1:]
+    for prec, b in plan:
+        eng = Engine(prog, fn, make_plugin(), budget=b, noinline=noinline, precision=prec)
+        try:
+            eng.run()
+            return eng
+        except BudgetExceeded as e:
+            last = e
+    raise last
 
 
 def _core(a):
